@@ -67,7 +67,7 @@ CLAIMED = {
  },
  "C06": {
   "level": "model_checking",
-  "technique": "depth-bounded exhaustive history exploration executed in lock-step on managers differing only in apply-cache capacity (1, 2, 16, 4096, warmed-up), differential + model oracle, every operation re-issued; terminal-heavy MTBDD and ZBDD set-operation alphabets on tiny terminal tables; request-pair differential (after a first request vs. on an emptied cache); loom exploration of the substitution id generator",
+  "technique": "depth-bounded exhaustive history exploration executed in lock-step on managers differing only in apply-cache capacity (1, 2, 16, 4096, warmed-up), differential + model oracle, every operation re-issued; terminal-heavy MTBDD and ZBDD set-operation alphabets on tiny terminal tables; request-pair differential (after a first request vs. on an emptied cache); every MTBDD operator on every ordered operand pair, the exchanged pair and the first pair again under 4 cache sizes; loom exploration of the substitution id generator",
   "text": "Every explored history runs on up to five managers; after each step all registers of all managers must denote the model's function with the model's minimal node count, and re-issuing an operation must return the identical handle; gc, reorderings and add_vars are part of the alphabet, so stale entries surviving them are reachable.",
   "note": "depth 4/5; alphabet of 5 operations per kind (different operators on the same operand registers); index backend",
   "ref": "3/C06"
@@ -123,7 +123,7 @@ CLAIMED = {
  },
  "C14": {
   "level": "fault_enumeration",
-  "technique": "exhaustive fault enumeration on the real code: for each of ~45 scripted operations a fresh manager for every inner-node (resp. terminal) capacity from 0 to 'everything fits', so every allocation point is the failing one in one run; model result oracle + structural/ref-count audit + retry after drop+gc; process-isolated groups for the operations that abort by design",
+  "technique": "exhaustive fault enumeration on the real code: for each of ~50 scripted operations (incl. all six MTBDD operators, MTBDD ite and MTBDD restrict by 12 literal cubes) a fresh manager for every inner-node (resp. terminal) capacity from 0 to 'everything fits', so every allocation point is the failing one in one run; model result oracle + structural/ref-count audit + retry after drop+gc; process-isolated groups for the operations that abort by design",
   "text": "Every capacity value in the sweep is executed; the outcome must be the model's result or OutOfMemory with an intact manager (exact reference counts, unchanged handles, gc exactness), after freeing the ballast the operation must succeed; aborts inside set_var_order/ZBDD add_vars are matched as open known findings (API cannot report an error).",
   "note": "index backend (the pointer backend has no capacity); multi-threaded runs are free-running; 4-variable operands",
   "ref": "3/C14"
